@@ -25,7 +25,7 @@ func init() {
 			return 2400
 		},
 		Rule: "case = one generated tree x thresholds taken from the tree's own values (exact ties, 1 ulp either side, below min, above max) for " +
-			"collapse by length / support / depth, and Resolve under several seeds; library and (every 8th case) the gotree collapse/resolve commands; " +
+			"collapse by length / support / depth, and Resolve under several seeds; one case in three works on an object re-rooted at another inner node or resolved beforehand (reference model read off the object); library and (every 8th case) the gotree collapse/resolve commands; " +
 			"non-trivial = at least one threshold removed some but not all inner branches, or Resolve added a branch; distinct by start text",
 		Assumptions: []string{
 			"exact-set claim for length collapse on trees whose inner lengths are all present (absent = -1 sentinel is ambiguous for '<= l')",
